@@ -305,22 +305,37 @@ def build_collection(route, paths, hs, ws, workdir):
 def observe(coll, paths):
     """export_simple / descriptions / images of one collection: (items, error)."""
     pidx = {p: i for i, p in enumerate(paths)}
+
+    def positions():
+        """file index of successive items: a path listed several times is told apart by its position
+        (items come in input order, one per file)"""
+        last = [-1]
+
+        def at(p):
+            for i in range(last[0] + 1, len(paths)):
+                if paths[i] == p:
+                    last[0] = i
+                    return i
+            return pidx[p]
+        return at
     out = {}
     with warnings.catch_warnings():
         warnings.simplefilter("ignore")
         try:
-            out["exp"] = ([(pidx[p], int(i)) for p, i in coll.export_simple()], None)
+            at = positions()
+            out["exp"] = ([(at(p), int(i)) for p, i in coll.export_simple()], None)
         except Exception as e:
             out["exp"] = ([], classify(e))
         for name, full in (("desc", False), ("img", True)):
             items, err = [], None
+            at = positions()
             try:
                 for it in (coll.images() if full else coll.descriptions()):
                     crval = it.wcs.wcs.crval
                     tag = int(round(float(crval[0])))
                     if float(crval[0]) != tag or float(crval[1]) != tag % 60:
                         tag = -1
-                    rec = [pidx[it.collection_id], [int(x) for x in it.shape], tag]
+                    rec = [at(it.collection_id), [int(x) for x in it.shape], tag]
                     if full:
                         arr = it.asarray()
                         vals = set(float(v) for v in arr.ravel())
@@ -515,6 +530,12 @@ def gen_cases(rng, tier, wd):
         tagger = make_tagger()
         nf = rng.choice((1, 2, 2, 3, 3, 4))
         specs = [gen_file_spec(rng, k, tagger) for k in range(nf)]
+        if p % 4 == 3:
+            # the same file listed twice (an input is identified by its position, not by its path)
+            j = rng.randrange(len(specs))
+            dup = [dict(h) for h in specs[j]]
+            dup[0]["dup_of"] = j          # marker on the first HDU spec: this list entry is file j again
+            specs.insert(rng.randint(j + 1, len(specs)), dup)
         pool.append(specs)
     # a fixed pair used for the exhaustive part: every HDU kind, alternate keys
     fixed = [
@@ -628,7 +649,7 @@ def end_to_end(rng, wd, V, tier, forced="NO"):
     from astropy.io import fits
     import toasty
     from toasty import TilingMethod
-    n = 3 if tier == "quick" else 10
+    n = 5 if tier == "quick" else 12
     done = 0
     samples = []
     for t in range(n):
@@ -654,8 +675,14 @@ def end_to_end(rng, wd, V, tier, forced="NO"):
         mode = rng.choice(("list", "list", "scalar", "none"))
         if t == 0 and forced != "NO":
             mode = "list" if isinstance(forced, list) else "none" if forced is None else "scalar"
+        # several workers: each worker must get the image of the input it was handed, with that input's own selection
+        par = 1 if t == 0 else rng.choice((1, 2, 3))
+        if t in (1, 2):
+            mode, par = "list", 2 + (t - 1)
         if mode == "list":
             sel = [rng.randint(1, 3), rng.randint(1, 3)]
+            if t in (1, 2) and sel[0] == sel[1]:
+                sel[1] = sel[0] % 3 + 1
             if t == 0 and forced != "NO":
                 sel = list(forced)
             want = {vals[0][sel[0] - 1], vals[1][sel[1] - 1]}
@@ -671,7 +698,7 @@ def end_to_end(rng, wd, V, tier, forced="NO"):
         try:
             with warnings.catch_warnings(), contextlib.redirect_stdout(sink), contextlib.redirect_stderr(sink):
                 warnings.simplefilter("ignore")
-                _o, bld = toasty.tile_fits(paths, out_dir=out, hdu_index=sel, tiling_method=TilingMethod.TAN, parallel=1)
+                _o, bld = toasty.tile_fits(paths, out_dir=out, hdu_index=sel, tiling_method=TilingMethod.TAN, parallel=par)
                 lv = bld.imgset.tile_levels
             got = set()
             for root, _dirs, files in os.walk(os.path.join(out, str(lv))):
@@ -682,11 +709,11 @@ def end_to_end(rng, wd, V, tier, forced="NO"):
         except Exception as e:
             err = classify(e) + ": " + str(e)[:80]
         done += 1
-        samples.append(dict(hdu_index=sel, want=sorted(want), got=None if got is None else sorted(got), err=err))
+        samples.append(dict(hdu_index=sel, parallel=par, want=sorted(want), got=None if got is None else sorted(got), err=err))
         if got != want:
             is_f1 = isinstance(sel, list) and err is not None and err.startswith("EKey")
             V.disagreement("tile_fits end to end: pixel values in the tiles are those of the selected HDUs",
-                           dict(e2e=dict(hdu_index=sel, values=vals)), sorted(want),
+                           dict(e2e=dict(hdu_index=sel, values=vals, parallel=par)), sorted(want),
                            dict(got=None if got is None else sorted(got), err=err), True,
                            finding_key=F1_KEY if is_f1 else None)
     return done, samples
@@ -712,6 +739,9 @@ def run(ctx, V):
     for p, specs in enumerate(pool):
         paths = []
         for k, spec in enumerate(specs):
+            if spec and spec[0].get("dup_of") is not None:
+                paths.append(paths[spec[0]["dup_of"]])
+                continue
             path = str(wd / f"c{p}_{k}.fits")
             write_fits(path, spec)
             paths.append(path)
